@@ -40,6 +40,12 @@ dbus_bool_t bus_apparmor_allows_eavesdropping (DBusConnection *c, const char *t,
 BusMatchmaker *bus_connection_get_matchmaker (DBusConnection *c) { return (BusMatchmaker *) &mm_tok; }
 dbus_bool_t bus_matchmaker_add_rule (BusMatchmaker *m, BusMatchRule *r) { if (!add_ok) return 0; g_added++; conn.n_rules++; return 1; }
 void bus_matchmaker_remove_rule (BusMatchmaker *m, BusMatchRule *r) { g_removed++; conn.n_rules--; }
+static int rule_present, g_removed_by_value, g_ack_before_remove;
+dbus_bool_t bus_matchmaker_remove_rule_by_value (BusMatchmaker *m, BusMatchRule *r, DBusError *e)
+{
+  if (!rule_present) { dbus_set_error_const (e, DBUS_ERROR_MATCH_RULE_NOT_FOUND, "nf"); return 0; }
+  g_ack_before_remove = g_acks; g_removed_by_value++; conn.n_rules--; return 1;
+}
 void bus_match_rule_unref (BusMatchRule *r) { }
 /* privilege check and ack reply are statics of driver.c reached through their real bodies; their callees: */
 dbus_bool_t dbus_connection_get_unix_user (DBusConnection *c, unsigned long *uid) { *uid = privileged ? 0 : 1000; return 1; }
@@ -47,13 +53,42 @@ dbus_bool_t _dbus_unix_user_is_process_owner (dbus_uid_t uid) { return uid == 0;
 dbus_bool_t dbus_connection_get_windows_user (DBusConnection *c, char **sid) { return 0; }
 BusContext *bus_connection_get_context (DBusConnection *c) { return (BusContext *) &ctx_tok; }
 DBusMessage *dbus_message_new_method_return (DBusMessage *m) { static struct DBusMessage r; if (!ack_ok) return 0; r.refcount = 1; r.type = 2; r.reply_serial = m->serial; return &r; }
-dbus_bool_t bus_transaction_send_from_driver (BusTransaction *t, DBusConnection *c, DBusMessage *m) { g_acks++; return 1; }
+static int send_ok = 1;
+dbus_bool_t bus_transaction_send_from_driver (BusTransaction *t, DBusConnection *c, DBusMessage *m) { if (!send_ok) return 0; g_acks++; return 1; }
 dbus_bool_t bus_containers_connection_is_contained (DBusConnection *c, const char **path, const char **type, const char **name) { return FALSE; }
 const char *bus_connection_get_loginfo (DBusConnection *c) { return "x"; }
 void bus_context_log_and_set_error (BusContext *context, DBusSystemLogSeverity severity, DBusError *error, const char *name, const char *msg, ...)
 { vf_err_name = name; if (error) { error->name = name; error->message = "m"; } }
 void bus_connection_request_headers (DBusConnection *c, BusExtraHeaders h) { }
 
+#ifndef OP
+#define OP 0
+#endif
+#if OP == 1
+/* C14 (RemoveMatch): the only effect that a cancelled transaction cannot undo — removing the rule — happens
+ * after everything that can fail for lack of memory; so a RemoveMatch that reports an error has removed nothing. */
+void harness (void)
+{
+  static struct DBusMessage msg; static char ms[6][VF_STRMAX + 1]; DBusError err; dbus_bool_t ok; int n;
+  vf_msg_symbolic (&msg, ms);
+  n = vf_range (1, 1000); conn.n_rules = n;
+  parse_ok = vf_bool (); ack_ok = vf_bool (); send_ok = vf_bool (); rule_present = vf_bool ();
+  err.name = 0; err.message = 0;
+  ok = bus_driver_handle_remove_match (&conn, (BusTransaction *) &ctx_tok, &msg, &err);
+  if (!ok)
+    {
+      VF_ASSERT (err.name != 0, "failure carries an error");
+      VF_ASSERT (g_removed_by_value == 0 && conn.n_rules == n, "a RemoveMatch that fails (NoMemory, invalid rule, rule not found) has removed nothing");
+      if (strcmp (err.name, DBUS_ERROR_NO_MEMORY) == 0) VF_WITNESS ("RemoveMatch ran out of memory");
+    }
+  else
+    {
+      VF_ASSERT (g_removed_by_value == 1 && conn.n_rules == n - 1 && rule_present, "a successful RemoveMatch removes exactly one rule");
+      VF_ASSERT (msg.no_reply || g_ack_before_remove == 1, "the acknowledgement is staged before the (non-undoable) removal");
+      VF_WITNESS ("rule removed");
+    }
+}
+#else
 void harness (void)
 {
   static struct DBusMessage msg; static char ms[6][VF_STRMAX + 1]; DBusError err; dbus_bool_t ok; int n;
@@ -83,3 +118,4 @@ void harness (void)
       VF_WITNESS ("AddMatch failed below the limit");
     }
 }
+#endif
